@@ -918,3 +918,12 @@ V("c03e-counts-augmented-form", "C03", "silent",
 V("c03e-outcome-map-comprehension", "C03", {"rule": "C03e", "contains": "outcome_map"},
   (RESULTF, "        ret: dict = {}\n\n        for branch in self.branches:\n            # NOTE: Several branches may carry the same outcome (e.g., the Gaussian\n            # measurements return one branch per sample), hence the frequencies add up.\n            if branch.outcome in ret:\n                ret[branch.outcome][\"frequency\"] += branch.frequency\n            else:\n                ret[branch.outcome] = {\n                    \"frequency\": branch.frequency,\n                    \"state\": branch.state,\n                }\n\n        return ret\n",
    "        return {\n            branch.outcome: {\"frequency\": branch.frequency, \"state\": branch.state}\n            for branch in self.branches\n        }\n"))
+
+# --- C05e carried cursor, C05f single writer of the interferometer
+V("c05e-cursor-skipped-by-continue", "C05", {"rule": "C05e", "contains": "_general_input_norm|cursor start"},
+  (PPROB, "    for occupation in input_occupation:\n        stop = start + occupation\n", "    for occupation in input_occupation:\n        if occupation < 2:\n            continue\n\n        stop = start + occupation\n"))
+V("c05e-continue-after-advance-free-loop", "C05", "silent",
+  (PPROB, "    for occupation in input_occupation:\n        stop = start + occupation\n", "    for occupation in input_occupation:\n        stop = start + occupation\n        if occupation < 0:\n            raise ValueError(occupation)\n"))
+V("c05f-step-writes-interferometer", "C05", {"rule": "C05f", "contains": "uniform_loss|writes interferometer"},
+  (PSTEPS, "    transmissivity = instruction._get_all_params(connector)[\"transmissivity\"]\n    modes = instruction.modes\n\n    _apply_matrix_on_modes(",
+   "    transmissivity = instruction._get_all_params(connector)[\"transmissivity\"]\n    modes = instruction.modes\n\n    if len(modes) == state.d:\n        state.interferometer = transmissivity * state.interferometer\n        return [Branch(state=state)]\n\n    _apply_matrix_on_modes("))
